@@ -141,7 +141,7 @@ PLAIN_TEXTS = ["x", "", "a b", " lead", "trail ", "#", "#x", "# pragma like", "Ã
                "\x0b", "\x1c", "â€¨", "\x00", "\U0001F600", "a\x85b", "  ", "=", "'q'", "\"d\""]
 PLAIN_NAMESETS = [
     ["a", "b"], ["a"], ["c1", "c2", "c3", "c4"], ["Hugo_Symbol", "Chromosome", "Start_Position"],
-    ["x", "#y"], ["a b", " c", "d "], ["Ã©", "ä¸­"], ["", "b"], ["a", ""], [""], ["Chromosome", "x"],
+    ["x", "#y"], ["a#b", "c"], ["x#"], [" #lead", "z"], ["a b", " c", "d "], ["Ã©", "ä¸­"], ["", "b"], ["a", ""], [""], ["Chromosome", "x"],
     [N_CHROM, N_START, N_END], [N_TUMOR, N_NORMAL, N_CHROM, N_START, N_END, "Other"],
     ["n" + str(i) for i in range(12)],
 ]
@@ -617,6 +617,12 @@ def _in_declared_order(case, order, contigs):
     def opt(v):
         return (1,) if v is None else (0, v)
 
+    descr = dict(SP.layout(case["layout"])["columns"]) if case["layout"] else {}
+
+    def nullable(n):
+        """does the empty text denote the column's null value (which sorts last)?"""
+        return n in descr and "" in SP.null_keys(descr[n])
+
     def key(row):
         def get(n):
             return row[idx[n]] if n in idx and idx[n] < len(row) else None
@@ -628,7 +634,7 @@ def _in_declared_order(case, order, contigs):
             except ValueError:
                 return None
         ch = get(N_CHROM)
-        if case["layout"] and ch == "":
+        if ch == "" and nullable(N_CHROM):
             ch = None
         if ch is not None and contigs:
             if ch not in contigs:
@@ -637,8 +643,10 @@ def _in_declared_order(case, order, contigs):
         k = [opt(ch), opt(num(N_START)), opt(num(N_END))]
         if order == "BarcodesAndCoordinate":
             t, nm = get(N_TUMOR), get(N_NORMAL)
-            if case["layout"] and nm == "":
+            if nm == "" and nullable(N_NORMAL):
                 nm = None
+            if t == "" and nullable(N_TUMOR):
+                t = None
             k = [opt(t), opt(nm)] + k
         return k
     try:
@@ -662,6 +670,10 @@ def premise(case, obs):
         return False
     names = case_names(case)
     if not names:
+        return False
+    if not case["layout"] and not case["rows"] and (case["mode"] or "Silent") == "Strict":
+        # scheme-less and no record: no column line is ever written, which only a non-Strict reader tolerates
+        # (the property asks for Silent on scheme-less column sets; theorem C02_round_trip_header_only)
         return False
     if any(len(r) != len(names) for r in case["rows"]):
         return False
